@@ -33,6 +33,10 @@ pub enum Step {
     /// full answer after `ms`, after which the server closes this connection: the next request on
     /// the same connection object fails at once with a connection-closed error
     AnswerClose(u64),
+    /// the server closes the connection `ms` after the request instead of answering: the request
+    /// fails the way hickory's multiplexer fails pending requests (UnexpectedEof "stream closed")
+    /// and the connection object is closed from then on
+    CloseNoAnswer(u64),
     /// NXDOMAIN (with SOA) after `ms`
     NxDomain(u64),
     /// NOERROR/NODATA (with SOA) after `ms`
@@ -58,6 +62,7 @@ impl Step {
         match self {
             Step::Answer(l) => format!("answer:{l}"),
             Step::AnswerClose(l) => format!("answerclose:{l}"),
+            Step::CloseNoAnswer(l) => format!("closenoanswer:{l}"),
             Step::NxDomain(l) => format!("nxdomain:{l}"),
             Step::NoData(l) => format!("nodata:{l}"),
             Step::Truncated(l) => format!("truncated:{l}"),
@@ -78,6 +83,7 @@ impl Step {
         match k {
             "answer" => Step::Answer(l),
             "answerclose" => Step::AnswerClose(l),
+            "closenoanswer" => Step::CloseNoAnswer(l),
             "nxdomain" => Step::NxDomain(l),
             "nodata" => Step::NoData(l),
             "truncated" => Step::Truncated(l),
@@ -257,6 +263,7 @@ pub struct NetState {
     serial: u64,
     next_conn: u64,
     dead_conns: std::collections::BTreeSet<u64>,
+    conn_wakers: BTreeMap<u64, std::task::Waker>,
     pub chooser: Option<Chooser>,
     pub udp_alphabet: Vec<Step>,
     pub tcp_alphabet: Vec<Step>,
@@ -289,6 +296,7 @@ impl Net {
                     serial: 0,
                     next_conn: 0,
                     dead_conns: Default::default(),
+                    conn_wakers: BTreeMap::new(),
                     chooser,
                     udp_alphabet: vec![],
                     tcp_alphabet: vec![],
@@ -399,7 +407,14 @@ impl Net {
         self.inner.state.lock().unwrap().dead_conns.contains(&id)
     }
     fn kill(&self, id: u64) {
-        self.inner.state.lock().unwrap().dead_conns.insert(id);
+        let waker = {
+            let mut st = self.inner.state.lock().unwrap();
+            st.dead_conns.insert(id);
+            st.conn_wakers.remove(&id)
+        };
+        if let Some(w) = waker {
+            w.wake();
+        }
     }
     /// Log a request on a connection the peer has closed (consumes no script step).
     fn log_closed(&self, srv: usize, tcp: bool, tag: u8, owner: u16) {
@@ -448,26 +463,22 @@ pub struct Conn {
     tcp: bool,
     /// identity of this connection object (a closed connection stays closed)
     id: u64,
+    /// TCP connections are the REAL `DnsExchange` (request channel + background task) over a
+    /// scripted `DnsRequestSender`: what a caller sees after the peer closed the connection is
+    /// then exactly what hickory's own handle yields (a disconnected channel reports `Busy`)
+    exchange: Option<hickory_net::xfer::DnsExchange<TokioRuntimeProvider>>,
 }
 
-impl DnsHandle for Conn {
-    type Response = Pin<Box<dyn Stream<Item = Result<DnsResponse, NetError>> + Send>>;
-    type Runtime = TokioRuntimeProvider;
-
-    fn send(&self, request: DnsRequest) -> Self::Response {
-        let q = request.queries[0].clone();
-        let id = request.id;
-        let tag = tag_of(&q.name);
-        if self.net.is_dead(self.id) {
-            self.net.log_closed(self.srv, self.tcp, tag, id);
-            return Box::pin(stream::once(async move { Err(io_err(std::io::ErrorKind::BrokenPipe, "connection closed by peer")) }));
-        }
-        let (step, serial) = self.net.next_step(self.srv, self.tcp, tag, id);
-        let conn_id = self.id;
-        let net = self.net.clone();
-        let (srv, tcp) = (self.srv, self.tcp);
-        let timeout_ms = self.net.inner.timeout_ms;
-        Box::pin(stream::once(async move {
+/// The scripted reaction to one request on (srv, protocol): picks the next script step now, and
+/// returns the future that plays it.
+fn scripted_reply(net: &Net, srv: usize, tcp: bool, conn_id: u64, request: DnsRequest) -> Pin<Box<dyn Future<Output = Result<DnsResponse, NetError>> + Send>> {
+    let q = request.queries[0].clone();
+    let id = request.id;
+    let tag = tag_of(&q.name);
+    let (step, serial) = net.next_step(srv, tcp, tag, id);
+    let net = net.clone();
+    let timeout_ms = net.inner.timeout_ms;
+    Box::pin(async move {
             let sleep = |ms: u64| tokio::time::sleep(Duration::from_millis(ms));
             let msg = |rcode: ResponseCode| {
                 let mut m = Message::new(id, MessageType::Response, OpCode::Query);
@@ -489,6 +500,11 @@ impl DnsHandle for Conn {
                         RData::A(A::new(10, tcp as u8, tag, srv as u8 + 1)),
                     ));
                     DnsResponse::from_message(m).map_err(NetError::from)
+                }
+                Step::CloseNoAnswer(l) => {
+                    sleep(l).await;
+                    net.kill(conn_id);
+                    Err(io_err(std::io::ErrorKind::UnexpectedEof, "stream closed"))
                 }
                 Step::NxDomain(l) => {
                     sleep(l).await;
@@ -541,7 +557,58 @@ impl DnsHandle for Conn {
             };
             net.end(serial);
             r
-        }))
+    })
+}
+
+impl DnsHandle for Conn {
+    type Response = Pin<Box<dyn Stream<Item = Result<DnsResponse, NetError>> + Send>>;
+    type Runtime = TokioRuntimeProvider;
+
+    fn send(&self, request: DnsRequest) -> Self::Response {
+        match &self.exchange {
+            None => Box::pin(stream::once(scripted_reply(&self.net, self.srv, self.tcp, self.id, request))),
+            Some(ex) => {
+                if self.net.is_dead(self.id) {
+                    // for the log only: the request goes to the real handle all the same
+                    self.net.log_closed(self.srv, self.tcp, tag_of(&request.queries[0].name), request.id);
+                }
+                Box::pin(ex.send(request))
+            }
+        }
+    }
+}
+
+/// The scripted transport below the real `DnsExchange` of a TCP connection.
+pub struct SimSender {
+    net: Net,
+    srv: usize,
+    id: u64,
+    shutdown: bool,
+}
+
+impl Stream for SimSender {
+    type Item = Result<(), NetError>;
+    fn poll_next(self: Pin<&mut Self>, cx: &mut std::task::Context<'_>) -> std::task::Poll<Option<Self::Item>> {
+        // the peer closed the connection (or nobody holds a handle any more): the stream ends,
+        // the background task of the exchange exits and drops the request channel
+        if self.shutdown || self.net.is_dead(self.id) {
+            return std::task::Poll::Ready(None);
+        }
+        self.net.inner.state.lock().unwrap().conn_wakers.insert(self.id, cx.waker().clone());
+        std::task::Poll::Pending
+    }
+}
+
+impl hickory_net::xfer::DnsRequestSender for SimSender {
+    fn send_message(&mut self, request: DnsRequest) -> hickory_net::xfer::DnsResponseStream {
+        let fut = scripted_reply(&self.net, self.srv, true, self.id, request);
+        Box::pin(async move { fut.await }).into()
+    }
+    fn shutdown(&mut self) {
+        self.shutdown = true;
+    }
+    fn is_shutdown(&self) -> bool {
+        self.shutdown
     }
 }
 
@@ -556,12 +623,17 @@ impl ConnectionProvider for Net {
         let net = self.clone();
         if !tcp {
             let id = self.new_conn_id();
-            return Ok(Box::pin(async move { Ok(Conn { net, srv, tcp, id }) }));
+            return Ok(Box::pin(async move { Ok(Conn { net, srv, tcp, id, exchange: None }) }));
         }
         let (step, serial) = self.next_conn_step(srv);
         Ok(Box::pin(async move {
             let r = match step {
-                ConnStep::Ok => Ok(Conn { net: net.clone(), srv, tcp, id: net.new_conn_id() }),
+                ConnStep::Ok => {
+                    let id = net.new_conn_id();
+                    let (exchange, background) = hickory_net::xfer::DnsExchange::<TokioRuntimeProvider>::from_stream(SimSender { net: net.clone(), srv, id, shutdown: false });
+                    tokio::spawn(background);
+                    Ok(Conn { net: net.clone(), srv, tcp, id, exchange: Some(exchange) })
+                }
                 ConnStep::Refused(l) => {
                     tokio::time::sleep(Duration::from_millis(l)).await;
                     Err(io_err(std::io::ErrorKind::ConnectionRefused, "tcp connect refused"))
